@@ -856,13 +856,19 @@ func (i *Interp) eval(n *ast.Node) V {
 	case "obj":
 		o := NewObj()
 		for _, kv := range n.C {
+			key := string(kv.S)
+			if kv.T == "str" {
+				// a quoted key is a string literal: it denotes its characters, escapes
+				// processed (an invalid escape is an error when the literal is evaluated)
+				key = unescape(key)
+			}
 			v := i.eval(kv.C[0])
 			storable(v)
 			hold(v)
-			if old := o.O.Get(string(kv.S)); old != nil {
+			if old := o.O.Get(key); old != nil {
 				release(old.V)
 			}
-			o.O.Set(string(kv.S), &Loc{V: v})
+			o.O.Set(key, &Loc{V: v})
 		}
 		return o
 	case "un":
